@@ -13,7 +13,7 @@
    [drop_steps] / [wdrop_steps]: tombstone file renamed into place, then database file, journal and log removed
    (a removed database file = cut to zero pages). *)
 From Coq Require Import NArith List Bool.
-Require Import LF.Model.PageDB LF.Model.Crash LF.Proofs.CrashProofs LF.Model.CrashWal LF.Proofs.CrashWalProofs.
+Require Import LF.Model.PageDB LF.Model.Crash LF.Proofs.CrashProofs LF.Model.CrashWal LF.Proofs.CrashWalProofs LF.Proofs.ChecksumProofs LF.Proofs.ApplyHistoryProofs LF.Proofs.OpenProofs.
 Import ListNotations.
 Local Open Scope N_scope.
 
@@ -117,3 +117,17 @@ Example C05_drop_nonvacuous :
   (recovered_obs (krun d0 (firstn 0 (drop_steps t))), recovered_obs (krun d0 (firstn 1 (drop_steps t))))
   = ([1; 77; 3; 11; 12; 13], [2; 0; 0]).
 Proof. vm_compute. reflexivity. Qed.
+
+(* The same conclusion on the page-level machine of C02-C04 (Model/PageDB.v), for ANY state the files may be in and whatever
+   the lost in-memory caches held: if Open succeeds, the node is at the position of the newest transaction file [f], that
+   position's checksum is the from-scratch checksum of the database file Open leaves, and the per-page cache is that
+   file's ([RB]).  ([open_recomputed]: the state Open builds from the files before it re-applies [f]; asked of [f]: page
+   numbers from 1, no page twice, and the pages it adds beyond the size the header names.) *)
+Theorem C05_restart_position_is_newest_file : forall s f rest s',
+  1 <= lockpg s -> rev (ltxdir s) = f :: rest -> wf_ltx f ->
+  (forall x, pageN (open_recomputed s) < x <= l_commit f -> x <> lockpg s -> alookup x (l_pages f) <> None) ->
+  op_open s = (Done, s') ->
+  RB s' /\ lockpg s' = lockpg s /\ txid s' = l_max f /\ pageN s' = l_commit f /\ chk s' = l_post f /\
+  chk s' = scratch (fun p => if p =? lockpg s' then 0 else file_h s' p) (pageN s').
+Proof. exact open_checksum. Qed.
+Print Assumptions C05_restart_position_is_newest_file.
